@@ -21,7 +21,8 @@ SIZES = [2, 4, 6, 8, 12, 16]
 
 
 class Flag:
-    overflow = False
+    overflow = False         # some intermediate left the range of its type
+    unconstrained = False    # ... and a non-ring operation then consumed it: C01 says nothing about this row
     unsupported = None
 
 
@@ -43,14 +44,27 @@ def mulsize(s):
     return 16
 
 
-class SInt:
-    __slots__ = ("w", "v")
+INF = 10 ** 6
 
-    def __init__(s, w, v):
+
+class SInt:
+    """fixed-width unsigned value.  k = number of low bits on which v is known to agree with the exact mathematical value of the expression
+    (INF while no intermediate left the range of its type).  Ring operations (+ - * << & | ^ ~) propagate min(k's, width) - 'equal modulo 2^w on
+    the low bits wrap-around arithmetic determines'; every other use of a value with k < INF makes the row unconstrained."""
+    __slots__ = ("w", "v", "k")
+
+    def __init__(s, w, v, k=INF):
         if not (0 <= v < 2 ** w):
             Flag.overflow = True
+            k = min(k, w)
         s.w = w
         s.v = v % 2 ** w
+        s.k = k
+
+    def need_exact(s):
+        if s.k < INF:
+            Flag.unconstrained = True
+        return s
 
     @staticmethod
     def of(x):
@@ -66,7 +80,7 @@ class SInt:
 
     def _bin(s, o, f):
         o = SInt.of(o)
-        return SInt(max(s.w, o.w), f(s.v, o.v))
+        return SInt(max(s.w, o.w), f(s.v, o.v), min(s.k, o.k))
 
     def __add__(s, o): return s._bin(o, lambda a, b: a + b)
     def __radd__(s, o): return SInt.of(o) + s
@@ -77,7 +91,7 @@ class SInt:
         if isinstance(o, SFix):
             return o.__mul__(s)
         o = SInt.of(o)
-        return SInt(mulsize(2 * max(s.w, o.w)), s.v * o.v)
+        return SInt(mulsize(2 * max(s.w, o.w)), s.v * o.v, min(s.k, o.k))
 
     def __rmul__(s, o): return SInt.of(o) * s
 
@@ -96,6 +110,7 @@ class SInt:
         o = SInt.of(o)
         if o.v == 0 or o.v & (o.v - 1):
             raise Reject("modulo is documented for 2^n values only")
+        s.need_exact()
         return SInt(max(s.w, o.w), s.v % o.v)
 
     def __and__(s, o): return s._bin(o, lambda a, b: a & b)
@@ -105,20 +120,19 @@ class SInt:
     __ror__ = __or__
     __rxor__ = __xor__
 
-    def __invert__(s): return SInt(s.w, (2 ** s.w - 1) ^ s.v)
+    def __invert__(s): return SInt(s.w, (2 ** s.w - 1) ^ s.v, min(s.k, s.w))
 
     def __lshift__(s, k):
-        r = s.v << int(k)
-        if r >= 2 ** s.w:
-            Flag.overflow = True
-        return SInt(s.w, r % 2 ** s.w)
+        return SInt(s.w, s.v << int(k), s.k)
 
-    def __rshift__(s, k): return SInt(s.w, s.v >> int(k))
+    def __rshift__(s, k): s.need_exact(); return SInt(s.w, s.v >> int(k))
 
     def _cmp(s, o, f):
         if isinstance(o, (SFix, SChar, bool)) or not isinstance(o, (SInt, int)):
             raise Reject("comparison of an integer with another class")
         o = SInt.of(o)
+        s.need_exact()
+        o.need_exact()
         return f(s.v, o.v)
 
     def __eq__(s, o): return s._cmp(o, lambda a, b: a == b)
@@ -128,14 +142,16 @@ class SInt:
     def __gt__(s, o): return s._cmp(o, lambda a, b: a > b)
     def __ge__(s, o): return s._cmp(o, lambda a, b: a >= b)
     def __hash__(s): return hash(s.v)
-    def __index__(s): return s.v
-    def __int__(s): return s.v
+    def __index__(s): s.need_exact(); return s.v
+    def __int__(s): s.need_exact(); return s.v
     def __bool__(s): raise Reject("integer used as a condition")
 
     def __getitem__(s, i):
         i = int(i)
         if not (0 <= i < s.w):
             raise Reject("bit index out of range")
+        if i >= s.k:
+            Flag.unconstrained = True
         return bool((s.v >> i) & 1)
 
     def __repr__(s): return f"SInt{s.w}({s.v})"
@@ -148,10 +164,10 @@ class SFix:
         x = Fraction(x)
         sc = x * 2 ** F
         if sc.denominator != 1:
-            Flag.overflow = True      # not representable: leaves the range of its type
+            Flag.overflow = Flag.unconstrained = True      # not representable: leaves the range of its type
             sc = Fraction(math.floor(sc))
         if not (0 <= sc < 2 ** (I + F)):
-            Flag.overflow = True
+            Flag.overflow = Flag.unconstrained = True
         s.I, s.F, s.n = I, F, int(sc) % 2 ** (I + F)
 
     @property
@@ -233,6 +249,7 @@ def s_float(x):
     if isinstance(x, SFix):
         return x
     if isinstance(x, SInt):
+        x.need_exact()
         if x.w > 4:
             raise Reject("float() of an integer wider than any fixed-point integer part")
         return SFix(x.w, {2: 2, 3: 3, 4: 4}[x.w], x.v)
@@ -246,7 +263,7 @@ def s_ord(c):
 
 
 def s_chr(i):
-    return SChar(chr(SInt.of(i).v % 256))
+    return SChar(chr(SInt.of(i).need_exact().v % 256))
 
 
 def s_len(x):
@@ -445,6 +462,9 @@ def to_spec(t, bits):
     return tuple(vals), k
 
 
+CARE = []      # per integer leaf of the return value, in order: how many low bits are constrained (filled by to_bits)
+
+
 def to_bits(t, v):
     """coerce a spec value to the declared type t -> bits (the Return coercion of the documented subset)"""
     from qlasskit.types import Qchar as LQchar
@@ -461,6 +481,7 @@ def to_bits(t, v):
         n = t.BIT_SIZE
         if v.v >= 2 ** n:
             Flag.overflow = True
+        CARE.append(min(n, v.k))
         return [bool((v.v >> i) & 1) for i in range(n)]
     if inspect.isclass(t) and issubclass(t, QfixedImp):
         I, F = t.BIT_SIZE_INTEGER, t.BIT_SIZE_FRACTIONAL
@@ -470,7 +491,7 @@ def to_bits(t, v):
             raise Reject(f"fixed-point expected, got {v!r}")
         sc = v.x * 2 ** F
         if sc.denominator != 1 or not (0 <= sc < 2 ** (I + F)):
-            Flag.overflow = True
+            Flag.overflow = Flag.unconstrained = True
         sc = int(math.floor(sc)) % 2 ** (I + F)
         return [bool((sc >> (i + F)) & 1) for i in range(I)] + [bool((sc >> (F - 1 - j)) & 1) for j in range(F)]
     if inspect.isclass(t) and issubclass(t, LQchar):
@@ -493,7 +514,8 @@ def evaluate(fn, arg_types, ret_type, row):
         v, n = to_spec(t, row[k:])
         args.append(v)
         k += n
-    Flag.overflow = False
+    Flag.overflow = Flag.unconstrained = False
+    del CARE[:]
     try:
         val = fn(*args)
         bits = to_bits(ret_type, val)
@@ -503,4 +525,23 @@ def evaluate(fn, arg_types, ret_type, row):
         return ("undefined", f"{type(ex).__name__}: {ex}")
     except (TypeError, ValueError, AttributeError, NameError) as ex:
         return ("reject", f"{type(ex).__name__}: {ex}")
-    return ("value", bits, Flag.overflow, val)
+    # care mask per return bit: integer leaves are constrained on their low k bits, everything else entirely
+    care = care_mask(ret_type, list(CARE))
+    if Flag.unconstrained:
+        care = [False] * len(bits)
+    return ("value", bits, Flag.overflow, val, care)
+
+
+def care_mask(t, ks):
+    from qlasskit.types.qint import QintImp
+    if t is bool:
+        return [True]
+    if inspect.isclass(t) and issubclass(t, QintImp):
+        k = ks.pop(0) if ks else t.BIT_SIZE
+        return [i < k for i in range(t.BIT_SIZE)]
+    if inspect.isclass(t) and hasattr(t, "BIT_SIZE"):
+        return [True] * t.BIT_SIZE
+    out = []
+    for a in get_args(t):
+        out += care_mask(a, ks)
+    return out
